@@ -26,12 +26,13 @@ import numpy as np
 from hypothesis import strategies as st
 
 # all values exactly representable / well separated
-RATES = [0.12, 0.35, 1.0, 3.0, 0.2, 0.6, 1.7, 5.0, 0.08, 0.25, 0.75, 2.2]
+RATES = [0.15, 0.45, 1.3, 4.0, 0.25, 0.7, 2.0, 6.0, 0.1, 0.33, 1.0, 3.0]
 FREQS = [15.0, 28.0, 40.0, 52.0, 21.0, 34.0, 46.0, 58.0]
 OSC_RATES = [0.3, 0.7, 0.15, 1.1, 0.45, 0.9, 0.2, 0.55]
 PFID_FREQS = [1490.0, 1502.0, 1511.0, 1497.0, 1485.0, 1518.0]
 PFID_RATES = [-2.0, -1.2, -3.1, -0.8, -1.7, -2.6]
 SPECTRAL_POOL = [1480.0 + 5.0 * i for i in range(9)]  # cm^-1, exact
+SPECTRAL_DENSE = [1480.0 + 2.5 * i for i in range(17)]  # model axis of spectral megacomplexes
 SECTIONS = ["megacomplex", "dataset", "k_matrix", "initial_concentration", "irf", "shape"]
 LABEL_LIST_TYPES = ("decay-parallel", "damped-oscillation", "pfid")
 
@@ -41,13 +42,14 @@ LABEL_LIST_TYPES = ("decay-parallel", "damped-oscillation", "pfid")
 
 
 def time_axis(kind: str, n: int, t0: float = -1.0) -> list[float]:
-    """Time axes (dyadic steps) reaching 10-20 time units; with an IRF they start before time zero
+    """Time axes (dyadic steps) reaching 5-17 time units; with an IRF they start before time zero
     (PFID lives there), without an IRF at zero (exp(-k t) is not a model for t < 0)."""
     if kind == "uniform":
-        t = t0 + 0.25 * np.arange(n)
+        t = t0 + 0.125 * np.arange(n)
     elif kind == "two_step":
-        a = t0 + 0.0625 * np.arange(n // 2)
-        t = np.concatenate([a, a[-1] + 0.5 * np.arange(1, n - n // 2 + 1)])
+        n_dense = int((1.0 - t0) / 0.125) + 1  # step 1/8 up to t = 1, then step 1/2
+        a = t0 + 0.125 * np.arange(n_dense)
+        t = np.concatenate([a, a[-1] + 0.5 * np.arange(1, max(n - n_dense, 8) + 1)])
     else:  # quadratic
         u = np.arange(n) / (n - 1)
         t = t0 + 16.0 * u**2 + 0.03125 * np.arange(n)
@@ -55,8 +57,8 @@ def time_axis(kind: str, n: int, t0: float = -1.0) -> list[float]:
 
 
 def _draw_time(draw, small=False, irf=True):
-    return time_axis(draw(st.sampled_from(["uniform", "two_step", "quadratic"])), draw(st.integers(24, 40 if small else 64)),
-                     draw(st.sampled_from([-1.0, -2.0, -0.5])) if irf else 0.0)
+    return time_axis(draw(st.sampled_from(["uniform", "two_step", "two_step", "quadratic"])), draw(st.integers(28, 44 if small else 64)),
+                     draw(st.sampled_from([-1.0, -0.5, -1.5])) if irf else 0.0)
 
 
 def _draw_spectral(draw, pfid=False):
@@ -105,7 +107,7 @@ class _Builder:
         self.spec["megacomplex"][label] = {
             "type": "decay-parallel",
             "compartments": list(comps),
-            "rates": [self.par(g, c, self.next_rate(rot), **{"non-negative": (i % 2 == 0)}) for i, c in enumerate(comps)],
+            "rates": [self.par(g, c, self.next_rate(rot), **({"non-negative": True} if i % 2 == 0 else {"min": 0.01})) for i, c in enumerate(comps)],
         }
         self.labels_of[label] = list(comps)
 
@@ -115,7 +117,7 @@ class _Builder:
         self.spec["megacomplex"][label] = {
             "type": "decay-sequential",
             "compartments": list(comps),
-            "rates": [self.par(g, c, r) for c, r in zip(comps, rates)],
+            "rates": [self.par(g, c, r, min=0.01) for c, r in zip(comps, rates)],
         }
         self.labels_of[label] = list(comps)
 
@@ -128,14 +130,14 @@ class _Builder:
         if topo == "chain" and n >= 2:
             rates = sorted([self.next_rate(rot) for _ in comps], reverse=True)
             for i in range(n - 1):
-                entries.append((comps[i + 1], comps[i], self.par(g, f"t{i}", rates[i])))
-            entries.append((comps[-1], comps[-1], self.par(g, f"t{n-1}", rates[-1])))
+                entries.append((comps[i + 1], comps[i], self.par(g, f"t{i}", rates[i], min=0.01)))
+            entries.append((comps[-1], comps[-1], self.par(g, f"t{n-1}", rates[-1], min=0.01)))
             j = [1.0] + [0.0] * (n - 1)
         elif topo == "branch" and n >= 2:
-            entries.append((comps[1], comps[0], self.par(g, "t0", self.next_rate(rot))))
+            entries.append((comps[1], comps[0], self.par(g, "t0", self.next_rate(rot), min=0.01)))
             entries.append((comps[0], comps[0], self.par(g, "loss", 0.9, vary=False)))
             for i, c in enumerate(comps[1:]):
-                entries.append((c, c, self.par(g, f"d{i+1}", self.next_rate(rot))))
+                entries.append((c, c, self.par(g, f"d{i+1}", self.next_rate(rot), min=0.01)))
             if n >= 3:
                 entries.append((comps[2], comps[0], self.par(g, "br", 0.4, vary=False)))
             if n >= 4:
@@ -143,7 +145,7 @@ class _Builder:
             j = [1.0] + [0.0] * (n - 1)
         else:  # parallel with unequal inputs
             for i, c in enumerate(comps):
-                entries.append((c, c, self.par(g, f"d{i}", self.next_rate(rot))))
+                entries.append((c, c, self.par(g, f"d{i}", self.next_rate(rot), min=0.01)))
             j = [1.0, 2.0, 0.5, 1.5][:n]
         kms = [f"km_{label}"] if n_km == 1 or len(entries) < 2 else [f"km_{label}", f"km_{label}_b"]
         for q, km in enumerate(kms):
@@ -167,7 +169,8 @@ class _Builder:
             "type": kind,
             "labels": list(osc_labels),
             "frequencies": [self.par(g, f"f_{o}", F[(i + offset) % len(F)]) for i, o in enumerate(osc_labels)],
-            "rates": [self.par(g, f"r_{o}", R[(i + offset) % len(R)]) for i, o in enumerate(osc_labels)],
+            # PFID dephasing rates are negative by definition: keep the optimiser inside that domain
+            "rates": [self.par(g, f"r_{o}", R[(i + offset) % len(R)], **({"max": -0.05} if kind == "pfid" else {})) for i, o in enumerate(osc_labels)],
         }
         self.labels_of[label] = list(osc_labels)
 
@@ -189,8 +192,8 @@ class _Builder:
             item = {"type": kind}
             if kind in ("gaussian", "skewed-gaussian"):
                 item["amplitude"] = self.par(g, f"a_{s}", 1.0 + 0.5 * ((i + offset) % 3), vary=False)
-                item["location"] = self.par(g, f"l_{s}", 1486.0 + 9.0 * ((i + 2 * offset) % 5))
-                item["width"] = self.par(g, f"w_{s}", 14.0 + 6.0 * ((i + offset) % 3))
+                item["location"] = self.par(g, f"l_{s}", 1486.0 + 7.0 * ((i + 2 * offset) % 5))
+                item["width"] = self.par(g, f"w_{s}", 8.0 + 3.0 * ((i + offset) % 3))
                 if kind == "skewed-gaussian":
                     item["skewness"] = self.par(g, f"k_{s}", 0.3, vary=False)
             self.spec.setdefault("shape", {})[sh] = item
@@ -336,49 +339,62 @@ def perm_tags(perm: dict) -> list[str]:
     return out
 
 
-def _draw_perm_of(draw, n):
-    return list(draw(st.permutations(list(range(n)))))
-
-
-def draw_perm(draw, spec, *, allow_split=False, rich=True):
-    """A random declaration permutation of everything that is permutable in ``spec``."""
-    perm: dict = {}
-    ml = {}
+def permutable_slots(spec, rich=True):
+    """[(perm key, item, number of entries)] of everything whose declaration order can be permuted."""
+    slots = []
     for mc, m in spec["megacomplex"].items():
         n = {"decay-parallel": lambda: len(m["compartments"]), "damped-oscillation": lambda: len(m["labels"]),
              "pfid": lambda: len(m["labels"]), "spectral": lambda: len(m["shape"])}.get(m["type"])
-        if n and n() >= 2 and draw(st.integers(0, 3)) > 0:
-            ml[mc] = _draw_perm_of(draw, n())
-        if m["type"] == "decay" and len(m["k_matrix"]) >= 2 and draw(st.booleans()):
-            perm.setdefault("mc_kmlist", {})[mc] = _draw_perm_of(draw, len(m["k_matrix"]))
-    if ml:
-        perm["mc_labels"] = ml
+        if n and n() >= 2:
+            slots.append(("mc_labels", mc, n()))
+        if m["type"] == "decay" and len(m["k_matrix"]) >= 2:
+            slots.append(("mc_kmlist", mc, len(m["k_matrix"])))
     for ic, item in spec.get("initial_concentration", {}).items():
-        if len(item["compartments"]) >= 2 and draw(st.integers(0, 3)) > 0:
-            perm.setdefault("ic", {})[ic] = _draw_perm_of(draw, len(item["compartments"]))
-    for km, item in spec.get("k_matrix", {}).items():
-        if len(item["matrix"]) >= 2 and draw(st.booleans()):
-            perm.setdefault("km_entries", {})[km] = _draw_perm_of(draw, len(item["matrix"]))
+        if len(item["compartments"]) >= 2:
+            slots.append(("ic", ic, len(item["compartments"])))
     for ds, d in spec["dataset"].items():
-        if len(d["megacomplex"]) >= 2 and draw(st.integers(0, 3)) > 0:
-            perm.setdefault("ds_mc", {})[ds] = _draw_perm_of(draw, len(d["megacomplex"]))
-        if len(d.get("global_megacomplex", [])) >= 2 and draw(st.booleans()):
-            perm.setdefault("ds_gmc", {})[ds] = _draw_perm_of(draw, len(d["global_megacomplex"]))
+        if len(d["megacomplex"]) >= 2:
+            slots.append(("ds_mc", ds, len(d["megacomplex"])))
+        if len(d.get("global_megacomplex", [])) >= 2:
+            slots.append(("ds_gmc", ds, len(d["global_megacomplex"])))
     if rich:
+        for km, item in spec.get("k_matrix", {}).items():
+            if len(item["matrix"]) >= 2:
+                slots.append(("km_entries", km, len(item["matrix"])))
         for sec in SECTIONS:
-            if sec in spec and len(spec[sec]) >= 2 and draw(st.booleans()):
-                perm.setdefault("sections", {})[sec] = _draw_perm_of(draw, len(spec[sec]))
-        if draw(st.integers(0, 3)) == 0:
-            perm["top"] = _draw_perm_of(draw, len(spec))
-    if allow_split:
+            if sec in spec and len(spec[sec]) >= 2:
+                slots.append(("sections", sec, len(spec[sec])))
+    return slots
+
+
+def draw_perm(draw, spec, *, allow_split=False, rich=True):
+    """A random non-identity declaration permutation (where the spec has anything to permute)."""
+    perm: dict = {}
+    if allow_split and draw(st.integers(0, 3)) == 0:
         cands = []
         for mc, m in spec["megacomplex"].items():
             k = len(m.get("labels", m.get("shape", []))) if m["type"] in ("damped-oscillation", "pfid", "spectral") else 0
             if k >= 2 and all(len(d["megacomplex"]) - 1 + k <= 3 for d in spec["dataset"].values() if mc in d["megacomplex"]) \
                     and all(len(d["global_megacomplex"]) - 1 + k <= 3 for d in spec["dataset"].values() if mc in d.get("global_megacomplex", [])):
                 cands.append(mc)
-        if cands and draw(st.integers(0, 2)) == 0:
+        if cands:
             perm["split"] = [draw(st.sampled_from(cands))]
+    slots = [s_ for s_ in permutable_slots(spec, rich) if not (s_[0] == "mc_labels" and s_[1] in perm.get("split", []))]
+    core = [s_ for s_ in slots if s_[0] not in ("km_entries", "sections")]
+    if slots:
+        chosen = draw(st.lists(st.sampled_from(slots), min_size=0, max_size=len(slots), unique=True))
+        if not perm and not any(c in core for c in chosen):
+            # at least one permutation that changes the order of labels / megacomplexes where the spec has one
+            chosen.append(draw(st.sampled_from(core or slots)))
+        for key, item, n in chosen:
+            # a rotation by 1..n-1 followed by an optional swap: never the identity for the first chosen slot
+            pi = list(draw(st.permutations(list(range(n)))))
+            if pi == list(range(n)):
+                r = draw(st.integers(1, n - 1))
+                pi = pi[r:] + pi[:r]
+            perm.setdefault(key, {})[item] = pi
+    if rich and draw(st.integers(0, 3)) == 0:
+        perm["top"] = list(draw(st.permutations(list(range(len(spec))))))
     return perm
 
 
@@ -396,7 +412,7 @@ def time_models(draw, *, for_fit=False, allow_split=False, with_perm=True):
     b._rate_i = rot
     n_ds = draw(st.integers(1, 2 if for_fit else 3))
     irf_kind = draw(st.sampled_from(["none", "gaussian", "gaussian", "multi-gaussian", "spectral-gaussian", "spectral-gaussian"]))
-    irf = b.irf(irf_kind, center=draw(st.sampled_from([0.3, 0.0, 0.45])), width=draw(st.sampled_from([0.1, 0.2, 0.07])))
+    irf = b.irf(irf_kind, center=draw(st.sampled_from([0.3, 0.1, 0.45])), width=draw(st.sampled_from([0.1, 0.2, 0.07])))
     max_lab = 3 if for_fit else 4
     species = ["s1", "s2", "s3", "s4", "s5"]
     # --- pool of megacomplexes
@@ -436,6 +452,7 @@ def time_models(draw, *, for_fit=False, allow_split=False, with_perm=True):
         extras = [e for e in extras if e not in ("pfid", "coh")]
     if "doas2" in extras and "doas" not in extras:
         extras[extras.index("doas2")] = "doas"
+    extras = sorted(extras, key=lambda e: e == "doas2")  # the second oscillation megacomplex refers to the first
     for e in extras:
         if e == "doas":
             n = draw(st.integers(1, max_lab))
@@ -539,7 +556,7 @@ def spectral_models(draw, *, for_fit=False, allow_split=False, with_perm=True):
                 mcs[0] = "mc_sp1"
             b.dataset(lab, mcs, mc_scale=[draw(st.sampled_from([0.5, 1.0, 2.0])) for _ in mcs] if draw(st.booleans()) else None,
                       scale=draw(st.sampled_from([None, 2.0])))
-            datasets[lab] = _axes(_draw_time(draw, small=True)[:12], SPECTRAL_POOL, noise_seed=draw(st.integers(0, 10**6)), noise=0.003 if for_fit else 0.0)
+            datasets[lab] = _axes(_draw_time(draw, small=True)[:12], SPECTRAL_DENSE, noise_seed=draw(st.integers(0, 10**6)), noise=0.003 if for_fit else 0.0)
         _freeze_unused(b)
         family = "spectral"
     else:
@@ -559,7 +576,7 @@ def spectral_models(draw, *, for_fit=False, allow_split=False, with_perm=True):
         irf = b.irf(draw(st.sampled_from(["none", "gaussian"])))
         b.dataset("dataset_1", ["mc_d1"], irf=irf, ic=ic, gmcs=sp,
                   gmc_scale=[draw(st.sampled_from([0.5, 1.0, 2.0])) for _ in sp] if draw(st.booleans()) else None)
-        datasets["dataset_1"] = _axes(_draw_time(draw, small=True, irf=irf is not None), SPECTRAL_POOL, noise_seed=draw(st.integers(0, 10**6)), noise=0.003 if for_fit else 0.0)
+        datasets["dataset_1"] = _axes(_draw_time(draw, small=True, irf=irf is not None), SPECTRAL_DENSE, noise_seed=draw(st.integers(0, 10**6)), noise=0.003 if for_fit else 0.0)
         family = "full"
     case = _case(b, datasets, family, clp_seed=draw(st.integers(0, 10**6)),
                  perturb=[draw(st.sampled_from([0.97, 0.985, 1.02, 1.03])) for _ in range(8)])
@@ -663,13 +680,13 @@ def grid_twin_matrix(tier):
             b = _Builder()
             b.spectral("mc1", ["s1", "s2", "s3", "s4"][:n])
             b.dataset("dataset_1", ["mc1"])
-            cases.append(_case(b, {"dataset_1": _axes(time_axis("uniform", 10), SPECTRAL_POOL)}, "spectral", perm={"mc_labels": {"mc1": pi}}))
+            cases.append(_case(b, {"dataset_1": _axes(time_axis("uniform", 10), SPECTRAL_DENSE)}, "spectral", perm={"mc_labels": {"mc1": pi}}))
             # as global megacomplex of a full model
             b = _Builder()
             b.spectral("mc_sp", ["s1", "s2", "s3", "s4"][:n])
             b.decay_parallel("mc_d1", ["s1", "s2", "s3", "s4"][:n])
             b.dataset("dataset_1", ["mc_d1"], gmcs=["mc_sp"])
-            cases.append(_case(b, {"dataset_1": _axes(time_axis("uniform", 24, 0.0), SPECTRAL_POOL)}, "full", perm={"mc_labels": {"mc_sp": pi}}))
+            cases.append(_case(b, {"dataset_1": _axes(time_axis("uniform", 24, 0.0), SPECTRAL_DENSE)}, "full", perm={"mc_labels": {"mc_sp": pi}}))
     # three megacomplexes per dataset: order of the list (with scales) x inner orders
     for combo in ("par+doas+base", "decay+pfid+coh", "par+seq+doas", "doas+doas2+par"):
         for irf_kind in ("none", "gaussian", "spectral-gaussian"):
@@ -769,7 +786,7 @@ def grid_twin_fit(tier):
         b = _Builder()
         b.spectral("mc1", ["s1", "s2", "s3"], kinds=("gaussian", "skewed-gaussian", "gaussian"))
         b.dataset("dataset_1", ["mc1"])
-        cases.append(_case(b, {"dataset_1": _axes(time_axis("uniform", 10), SPECTRAL_POOL, noise=0.003)}, "spectral",
+        cases.append(_case(b, {"dataset_1": _axes(time_axis("uniform", 10), SPECTRAL_DENSE, noise=0.003)}, "spectral",
                            perm={"mc_labels": {"mc1": pi}}, perturb=[0.98, 1.02, 0.985, 1.03]))
     return cases
 
